@@ -25,11 +25,45 @@ func (p *Prog) optionFieldMap(fn *ssa.Function) map[string][]string {
 			if e.Kind != "store" {
 				continue
 			}
+			found := false
 			for _, g := range e.Guard {
 				if strings.HasPrefix(g, "arg1 == \"") {
 					opt := strings.Trim(strings.TrimPrefix(g, "arg1 == "), "\"")
 					out[opt] = append(out[opt], e.What)
+					found = true
 				}
+			}
+			if found || e.Site != nil {
+				continue
+			}
+			// `case A, B:` with an inner `if name == A {…} else {…}`: the option is what the
+			// feasible paths to the store say about the name
+			dnf, ok := PathConds(e.In.Block())
+			if !ok {
+				continue
+			}
+			opts := map[string]bool{}
+			for _, conj := range dnf {
+				pos, neg := map[string]bool{}, map[string]bool{}
+				for _, l := range conj {
+					a := NormAtom(l.Cond, l.Pol)
+					if strings.HasPrefix(a, "arg1 == \"") {
+						pos[strings.Trim(strings.TrimPrefix(a, "arg1 == "), "\"")] = true
+					} else if strings.HasPrefix(a, "arg1 != \"") {
+						neg[strings.Trim(strings.TrimPrefix(a, "arg1 != "), "\"")] = true
+					}
+				}
+				if len(pos) != 1 {
+					continue // no option decided, or two different names at once: infeasible
+				}
+				for o := range pos {
+					if !neg[o] {
+						opts[o] = true
+					}
+				}
+			}
+			for o := range opts {
+				out[o] = append(out[o], e.What)
 			}
 		}
 	}
